@@ -207,16 +207,21 @@ func escaperIdentity(c *Ctx, f *flow, rule string) {
 		c.viol(rule, modPath+".EscapeString", "", "templ.EscapeString not found (exported API that every generated file calls)")
 		return
 	}
-	good := false
+	good := true
+	nret := 0
 	detail := ""
 	for _, b := range fn.Blocks {
 		for _, ins := range b.Instrs {
 			if ret, ok := ins.(*ssa.Return); ok && len(ret.Results) == 1 {
+				nret++
 				ls := f.classify(ret.Results[0])
-				detail = leavesString(ls)
-				good = len(ls) == 1 && ls[0].Kind == "ESCAPED" && len(ls[0].Inner) == 1 && ls[0].Inner[0].Kind == "PARAM"
+				if !(len(ls) == 1 && ls[0].Kind == "ESCAPED" && len(ls[0].Inner) == 1 && ls[0].Inner[0].Kind == "PARAM") {
+					good = false
+					detail = leavesString(ls)
+				}
 			}
 		}
 	}
+	good = good && nret > 0
 	c.check(good, rule, modPath+".EscapeString", c.pos(fn.Pos()), "returns html.EscapeString(param)", "templ.EscapeString no longer returns html.EscapeString of its parameter on every path: "+detail)
 }
